@@ -321,11 +321,13 @@ def gen_items(tier, which):
 def effectful_arguments(tier):
     """C01 quantifies over all well-typed programs, not only the effect-sequenced fragment: arguments are evaluated left to
     right, integers and data eagerly, codata by name (FunM).  Families with effects in every argument position, effects under
-    codata bindings, goto in by-name / by-value argument positions, and the extended random grammar in mode 'all'."""
+    codata bindings, goto in by-name / by-value argument positions, and the extended random grammar in mode 'all' with
+    pure codata-typed terms (FunM runs a receiver's effects before the destructor's arguments, the calculus - consumer first
+    at codata types - after them; the source semantics of the property does not fix that order, so it is kept out)."""
     import funprogs
     import funrand
     ps = funprogs.effects_in_arguments() + [p for p in funprogs.positions_and_codata() if p['name'].startswith('codata-eff')] + funprogs.goto_in_arguments()
-    ps = ps + [dict(p, name=p['name'] + '/c01') for p in funrand.programs_ext('all', list(range(1000, 1150 if tier == 'quick' else 2500)), 3)]
+    ps = ps + [dict(p, name=p['name'] + '/c01') for p in funrand.programs_ext('all', list(range(1000, 1150 if tier == 'quick' else 2500)), 3, pure_codata=True)]
     return [{'name': p['name'], 'src': p['src']} for p in ps]
 
 
